@@ -548,6 +548,14 @@ func (w *world) applyCreateSession(req *request, d *delivery) {
 	default:
 		if c.registered && c.id == req.clID {
 			w.checkNotRefused(req, d, s, "CREATE_SESSION")
+		} else if c.hasPend && c.pendID == req.clID && s == nfsv4.NFS4ERR_SEQ_MISORDERED && !d.stale && w.validContext(req, d) {
+			// The first CREATE_SESSION of a record that EXCHANGE_ID just
+			// handed out, carrying the sequence ID that reply announced
+			// (possibly sent again after NFS4ERR_DELAY, which must not
+			// consume the sequence ID): answering it from a replay cache
+			// that holds no reply of this request gives it another
+			// request's reply.
+			w.violate("in-order-create-session-rejected", fmt.Sprintf("%s request#%d [%s]: CREATE_SESSION for the client record EXCHANGE_ID handed out, with the sequence ID it announced (%d), was answered NFS4ERR_SEQ_MISORDERED (delivery %d); reply %s", c.name, req.id, req.desc, req.csSeq, d.n, describeReply(d.res)))
 		}
 	}
 }
